@@ -173,6 +173,10 @@ def frame_c18_bounded_callset(f, base):
             if c in alloc or ("." + last) in alloc or any(c.endswith(a) for a in alloc if "::" in a):
                 if c not in exc.get(fn, []):
                     bad.append("%s calls %s" % (fn, c))
+            elif c in base.get("c18_maybe_allocating", []):
+                # allocates for some receiver types only (a Waker / Rc / Arc clone does not): the counting allocator of the
+                # bounded search decides; on its own this is no alarm
+                unknown.append("%s calls %s (allocates for some receiver types only)" % (fn, c))
             else:
                 unknown.append("%s calls %s" % (fn, c))
     # new functions in the bounded family files that allocate are caught when they are called from the functions above
